@@ -182,7 +182,7 @@ func parseValues(dataPoints string) (points []Value, err error) {
 		return nil, nil
 	}
 
-	fields := strings.FieldsFunc(dataPoints, func(r rune) bool { return r == ' ' || r == ',' })
+	fields := strings.FieldsFunc(dataPoints, func(r rune) bool { return r == ' ' || r == ',' || r == '\t' || r == '\n' || r == '\r' })
 	points = make([]Value, len(fields))
 	for i, v := range fields {
 		val, err := parseValue(v)
@@ -248,6 +248,8 @@ func parseTransform(attr string) (out []transform, err error) {
 	ts := strings.Split(attr, ")")
 	for _, t := range ts {
 		t = strings.TrimSpace(t)
+		// transforms are separated by white space and/or a comma
+		t = strings.TrimSpace(strings.TrimPrefix(t, ","))
 		if len(t) == 0 {
 			continue
 		}
